@@ -112,17 +112,20 @@ func refVerifyToken(tok string, cfg jwtCfg, now int64) tokVerdict {
 	if !verified {
 		return tokVerdict{reason: "signature-mismatch"}
 	}
+	// The signature verifies. The statement only adds "time claims currently valid": a payload
+	// from which no time claim can be read (not base64url, not JSON, not an object) carries none,
+	// so the reference is lenient here (go-zero rejects most of these, which is always allowed).
 	pb, err := b64u.DecodeString(parts[1])
 	if err != nil {
-		return tokVerdict{reason: "payload-not-base64url"}
+		return tokVerdict{valid: true, reason: "valid-signature/payload-not-base64url"}
 	}
 	pv, err := decodeJSON(pb)
 	if err != nil {
-		return tokVerdict{reason: "payload-not-json"}
+		return tokVerdict{valid: true, reason: "valid-signature/payload-not-json"}
 	}
 	claims, ok := pv.(map[string]any)
 	if !ok {
-		return tokVerdict{reason: "payload-not-object"}
+		return tokVerdict{valid: true, reason: "valid-signature/payload-not-object"}
 	}
 	v := tokVerdict{claims: claims}
 	nowR := new(big.Rat).SetInt64(now)
